@@ -22,7 +22,10 @@ LEVEL_TEXT = ("Theorems (coq/Proofs/TotalP.v, Properties/C04.v): dec_total - for
               "Every Rust panic site on the decode path is an explicit Panic value in the model; the differential run (exhaustive short inputs, byte- and structure-level "
               "mutation, nesting to the message-size limit, debug build) shows model and implementation agree on the outcome, with no unwind/abort/hang. Stack use and "
               "non-trapping UB are named as outside the model.")
-feature_sets = default_feature_sets
+def feature_sets(tier):
+    # also with every logging statement of the crate compiled in and evaluated (`log-all`): an argument of a log statement that
+    # slices or unwraps can panic on untrusted input only in such a build
+    return default_feature_sets(tier) + [["log-all"], core.WIRE_FEATURES + ["log-all"]]
 
 
 def cases(tier, rng, schema, feats):
